@@ -37,8 +37,18 @@ def seed() -> int:
         return 1
 
 
+_driver_built = [False]
+
+
 def driver_path() -> str:
-    return str(LEAN / '.lake' / 'build' / 'bin' / 'pegtl_drv')
+    """The model driver (lean_exe pegtl_drv), rebuilt from the current Lean sources once per process."""
+    exe = LEAN / '.lake' / 'build' / 'bin' / 'pegtl_drv'
+    if not _driver_built[0]:
+        p = subprocess.run(['lake', 'build', 'pegtl_drv'], cwd=str(LEAN), capture_output=True, text=True, timeout=3600)
+        if p.returncode != 0:
+            raise RuntimeError("lake build pegtl_drv failed: " + (p.stdout + p.stderr)[-2000:])
+        _driver_built[0] = True
+    return str(exe)
 
 
 def repo_fingerprint() -> str:
